@@ -246,7 +246,7 @@ class MethodFilter(Elaboratable, TransformerOneTarget):
         def _(arg):
             if self.use_condition:
                 cond = Signal()
-                m.d.top_comb += cond.eq(self.condition(m, arg))
+                m.d.top_comb += cond.eq(Value.cast(self.condition(m, arg)).any())
                 with condition(m, nonblocking=True) as branch:
                     with branch(cond):
                         m.d.comb += ret.eq(self.target(m, arg))
